@@ -3,3 +3,4 @@ import EpsicDriver.OpsAlg
 import EpsicDriver.OpsAlias
 import EpsicDriver.OpsLin
 import EpsicDriver.OpsEst
+import EpsicDriver.OpsEig
